@@ -5,10 +5,10 @@
 package auth
 
 import (
+	"crypto/rand"
+	"encoding/hex"
 	"sync"
 	"time"
-
-	"github.com/cnotch/ipchub/provider/security"
 )
 
 // Token 用户登录后的Token
@@ -29,15 +29,26 @@ type TokenManager struct {
 func (tm *TokenManager) NewToken(username string) *Token {
 	token := &Token{
 		Username: username,
-		AToken:   security.NewID().MD5(),
+		AToken:   newTokenValue(),
 		AExp:     time.Now().Add(time.Hour * time.Duration(2)).Unix(),
-		RToken:   security.NewID().MD5(),
+		RToken:   newTokenValue(),
 		RExp:     time.Now().Add(time.Hour * time.Duration(7*24)).Unix(),
 	}
 
 	tm.tokens.Store(token.AToken, token)
 	tm.tokens.Store(token.RToken, token)
 	return token
+}
+
+// newTokenValue 生成 token 值(32个十六进制字符)。
+// 必须来自密码学安全的随机源：进程内的自增ID会通过 RTSP 的 Session 头、WSP 的通道号
+// 泄露给未认证的客户端，由它派生的 token 可以被推算出来。
+func newTokenValue() string {
+	var buf [16]byte
+	if _, err := rand.Read(buf[:]); err != nil {
+		panic("auth: crypto/rand is unavailable: " + err.Error())
+	}
+	return hex.EncodeToString(buf[:])
 }
 
 // Refresh 刷新指定的Token
